@@ -135,6 +135,30 @@ func c08Frags(r *plan.Rng) []c08Frag {
 			"for k, v in sm {",
 			"	r8k += len(k)",
 			"}"}},
+		{name: "moduleValues", mods: []string{"simmod"}, lines: []string{
+			"smv := import(\"simmod\")",
+			"v1 := smv.by + bytes(ins)",
+			"v2 := string(smv.by[1:4]) + string(smv.by[inp % 5])",
+			"v3 := smv.tm + inp",
+			"v4 := int(smv.tm) - inp",
+			"v5 := is_error(smv.er) ? smv.er.value + ins : \"\"",
+			"v6 := smv.mp.a + inp + len(smv.mp.l) + smv.mp.l[1]",
+			"v7 := smv.ch + inp % 3",
+			"v8 := smv.f * float(inp) + smv.k",
+			"v9 := format(\"%v|%s|%d\", smv.mp.l, smv.s, smv.k)",
+			"v10 := copy(smv.mp)",
+			"v10.a = inp"}},
+		{name: "closuresNoFree", lines: []string{
+			"mk0 := func() {",
+			"	return func(b) {",
+			"		return b * 2 + 1",
+			"	}",
+			"}",
+			"g0 := mk0()",
+			"g1 := mk0()",
+			"r3z := g0(inp) + g1(inp + 1)",
+			"hof := func(fn, x) { return fn(fn(x)) }",
+			"r3y := hof(g0, inp)"}},
 		{name: "moduleTableAppend", mods: []string{"simmod"}, lines: []string{
 			"sma := import(\"simmod\")",
 			"r8a := sma.tbl + [inp]",
